@@ -78,7 +78,7 @@ def gen():
         re = [[[draw(st.floats(-2, 2, width=32)) for _ in d["z"]] for d in spec["vars"]] for _ in range(n_re)]
         flip = [draw(st.booleans()) for _ in spec["vars"]]
         return {"spec": spec, "reassign": re, "flip": flip, "modes": [draw(st.sampled_from(["auto", "auto", "targeted"])) for _ in re],
-                "pop_rebuild": draw(st.booleans())}
+                "pop_rebuild": draw(st.booleans()), "prebuild_copy": draw(st.booleans())}
 
     return g()
 
@@ -90,7 +90,7 @@ def diff_penalty(d, order):
     return D.T @ D
 
 
-def build_model(spec, per_obs_override=None):
+def build_model(spec, per_obs_override=None, prebuild_copy=False):
     dt = np.float64 if x64() else np.float32
     lvars = mg.build(spec, per_obs_override, float_dtype=dt)
     gb = lsl.GraphBuilder(to_float32=not x64())
@@ -130,6 +130,9 @@ def build_model(spec, per_obs_override=None):
             else:
                 node = lsl.Calc(lambda x: -jnp.sum(x ** 2) - 3.0, src, _name="user_" + which)
             setattr(gb, which + "_node", node)
+    if prebuild_copy and not ex.get("auto"):
+        # the builder stays usable after build_model(copy=True): the model under test is the builder's SECOND model
+        gb.build_model(copy=True)
     return gb.build_model(), lvars, extra
 
 
@@ -228,7 +231,7 @@ def compare(model, lvars, spec, values, mv, tag, det, bij=None):
 def oracle(case):
     spec = case["spec"]
     det = lambda: f"case={case}"  # noqa: E731
-    model, lvars, extra = build_model(spec)
+    model, lvars, extra = build_model(spec, prebuild_copy=case.get("prebuild_copy", False))
     dt = np.float64 if x64() else np.float32
     values = [np.asarray(np.asarray(v, dtype=dt), dtype=np.float64) for v in mg.initial_values(spec)]
     mv = None
